@@ -141,8 +141,9 @@ pub fn node(args: &Args) {
     for case in 0..args.n {
         let (p_it, p_name, p_ivl, p_nb) = specs[rng.below(2) as usize];
         let (f_it, f_name, f_ivl, f_nb) = specs[rng.below(2) as usize];
-        let p_limit = *rng.pick(&[1_000u64, 1_000_000, 5_000_000_000]);
-        let f_limit = *rng.pick(&[10_000_000u64, 50_000_000, 1_000_000_000]);
+        // (a limit of 0 refuses every non-zero amount: it is a limit, not "unlimited")
+        let p_limit = *rng.pick(&[1_000u64, 1_000_000, 5_000_000_000, 1_000_000, 0]);
+        let f_limit = *rng.pick(&[10_000_000u64, 50_000_000, 1_000_000_000, 50_000_000, 0]);
         let mut policy = World::default_policy();
         policy.global_velocity_control = VelocityControlSpec { limit_msat: p_limit, interval_type: p_it };
         policy.fee_velocity_control = VelocityControlSpec { limit_msat: f_limit, interval_type: f_it };
